@@ -694,7 +694,18 @@ class Emitter:
     e_CXXOperatorCallExpr = e_CallExpr
 
     def e_CXXNewExpr(self, n):
-        if n.get('isArray'): raise Unsupported('new[] has no rule')
+        if n.get('isArray'):
+            # R16a: new T[n] for pointer/scalar T only (no element constructors to run): n * sizeof(T) fresh bytes
+            # from the seam VERIF_operator_new_array (declared by its @stub); the (file, line) placement arguments
+            # of the leak-detecting operator new[] are dropped as in R16
+            et = n['type']['qualType'].strip()
+            elem = et[:-1].strip() if et.endswith('*') else ''
+            ond = re.sub(r'\s+', '', n.get('operatorNewDecl', {}).get('type', {}).get('qualType', ''))
+            if not elem or (not elem.endswith('*') and self.class_of({'qualType': elem})) or \
+               (n.get('isPlacement') and ond not in ('void*(size_t,constchar*,size_t)', 'void*(size_t,constchar*,int)')):
+                raise Unsupported('new[] has no rule')
+            self.fire('R16a new T[n] (pointer/scalar T) -> VERIF_operator_new_array'); self.calls.add('VERIF_operator_new_array')
+            return '((%s)VERIF_operator_new_array((size_t)(%s), sizeof(%s)))' % (self.ctype({'qualType': et}), self.e(self.kids(n)[0]), self.ctype({'qualType': elem}))
         c = self.kids(n)
         if n.get('isPlacement'):
             ond = n.get('operatorNewDecl', {}).get('type', {}).get('qualType', '')
